@@ -322,7 +322,12 @@ func TestVerifC14(t *testing.T) {
 	defer r.Finish()
 
 	statics := [][]netip.Addr{nil, {netip.MustParseAddr("2001:db8::53")}, {netip.MustParseAddr("2001:db8::53"), netip.MustParseAddr("fd00::53")},
-		{netip.MustParseAddr("2001:4860:4860::8888"), netip.MustParseAddr("2606:4700:4700::1111"), netip.MustParseAddr("fd00:53::1")}}
+		{netip.MustParseAddr("2001:4860:4860::8888"), netip.MustParseAddr("2606:4700:4700::1111"), netip.MustParseAddr("fd00:53::1")},
+		// static servers that are also addresses of the interface (the administrator
+		// listed the router's own stable addresses next to the wildcard), sorted as
+		// the configuration parser leaves them
+		{netip.MustParseAddr("2001:db8::4"), netip.MustParseAddr("2001:db8::2ff:fe00:1"), netip.MustParseAddr("fd00::4"), netip.MustParseAddr("fd00::5"), netip.MustParseAddr("fd00::8"), netip.MustParseAddr("fd00::9"), netip.MustParseAddr("fd00::2ff:fe00:1")},
+		{netip.MustParseAddr("2001:db8::53"), netip.MustParseAddr("fd00::9"), netip.MustParseAddr("fe80::5")}}
 
 	check := func(id string, list []model.SysIP, si int) {
 		r.Begin(id)
@@ -391,8 +396,22 @@ func TestVerifC14(t *testing.T) {
 			r.Violation(id, "lifetime", "lifetime differs from the stanza", nil)
 		}
 		rest := o.Servers[1:]
-		if !reflect.DeepEqual(append([]netip.Addr(nil), rest...), append([]netip.Addr(nil), statics[si]...)) && !(len(rest) == 0 && len(statics[si]) == 0) {
-			r.Violation(id, "static-servers", fmt.Sprintf("static servers %v, want %v", rest, statics[si]), nil)
+		// the static servers follow, as configured; when the picked address is also
+		// configured statically, listing it once (first) or again among the static
+		// ones are both "the static servers, sorted and without duplicates"
+		var without []netip.Addr
+		for _, a := range statics[si] {
+			if a != best {
+				without = append(without, a)
+			} else {
+				r.Count("picked_address_also_static", 1)
+			}
+		}
+		same := func(a, b []netip.Addr) bool {
+			return len(a) == 0 && len(b) == 0 || reflect.DeepEqual(append([]netip.Addr(nil), a...), append([]netip.Addr(nil), b...))
+		}
+		if !same(rest, statics[si]) && !same(rest, without) {
+			r.Violation(id, "static-servers", fmt.Sprintf("static servers %v, want %v", rest, statics[si]), map[string]any{"addrs": list})
 		}
 		if !reflect.DeepEqual(p.Servers, statics[si]) && !(len(p.Servers) == 0 && len(statics[si]) == 0) {
 			r.Violation(id, "config-mutated", "the configured static servers were altered by RA generation", nil)
